@@ -110,6 +110,6 @@ def plan(tier, seed, rng):
             units.append(Unit("C10", cfg, ch, ["props/c10.h"], max_success=ms))
         for ch in chunks(small, 40):
             units.append(Unit("C10", cfg, ch, ["props/c10.h"], max_success=ms))
-    # heavy units first in the pool: run_property sorts by len(cases), so pad nothing — order is by size only;
-    # the pool is dominated by the heavy single-instance units, which are submitted last. Keep them few.
+    # note: run_property submits units by decreasing number of cases, so the single-instance heavy units start last;
+    # they are kept few (quick: <= 12 per configuration) so that the tail stays short.
     return units
